@@ -4,10 +4,11 @@
    /repo by the correspondence run of harness/src/bin/c15.rs against Corr/C15.v). *)
 From Coq Require Import ZArith List Bool Permutation Sorted.
 From TV Require Import Model.KnnOrder Proof.KnnOrder.
-From TV Require Import Model.SqlSpec Model.SortSpec Model.SortQuery Model.SortImpl.
+From TV Require Import Model.SqlSpec Model.SortSpec Model.SortQuery Model.SortImpl Model.SortGroup.
 From TV Require Import Proof.SortOrder Proof.SortLimit Proof.SortWindow Proof.SortResult
-                       Proof.SortKeys Proof.SortModel Proof.SortRefute.
+                       Proof.SortKeys Proof.SortModel Proof.SortRefute Proof.SortGroup.
 Import ListNotations.
+Open Scope Z_scope.
 
 (* ------------------------------------------------------------------ the order *)
 (* the reference key order (any list of keys, any directions) is a total preorder *)
@@ -106,6 +107,14 @@ Theorem model_meets_spec : forall ncols q t rows,
   query_spec ncols q t rows.
 Proof. exact model_meets_spec_l. Qed.
 
+(* the same over GROUP BY (keys = output columns covering every grouping column): the rows the
+   model returns are the window of a sorted arrangement of the groups *)
+Theorem group_model_meets_spec : forall ncols gq t rows,
+  model_group ncols gq t = MRows rows ->
+  result_defined (g_dirs gq) false (g_elts gq t) = true ->
+  result_spec (g_dirs gq) false (g_elts gq t) (g_off gq) (g_lim gq) rows.
+Proof. exact group_model_meets_spec_l. Qed.
+
 (* each recorded class contains a query that the faithful model answers wrongly *)
 Theorem known_classes_refuted :
   refuted 1 /\ refuted 2 /\ refuted 3 /\ refuted 4 /\ refuted 5 /\ refuted 6 /\ refuted 7.
@@ -169,6 +178,10 @@ Check model_meets_spec : forall ncols q t rows,
   known_class_case ncols q t = 0%Z ->
   model_query ncols q t = MRows rows ->
   query_spec ncols q t rows.
+Check group_model_meets_spec : forall ncols gq t rows,
+  model_group ncols gq t = MRows rows ->
+  result_defined (g_dirs gq) false (g_elts gq t) = true ->
+  result_spec (g_dirs gq) false (g_elts gq t) (g_off gq) (g_lim gq) rows.
 Check known_classes_refuted :
   refuted 1 /\ refuted 2 /\ refuted 3 /\ refuted 4 /\ refuted 5 /\ refuted 6 /\ refuted 7.
 
@@ -191,4 +204,5 @@ Print Assumptions checker_sound.
 Print Assumptions checker_decides_property.
 Print Assumptions checker_order_by.
 Print Assumptions model_meets_spec.
+Print Assumptions group_model_meets_spec.
 Print Assumptions known_classes_refuted.
